@@ -328,7 +328,7 @@ func buildString(rec *Recorder, n *Node) z.ZogSchema {
 		return buildStringT(rec, n, s)
 	}
 	var opts []z.SchemaOption
-	if n.Coercer != "" {
+	if n.Coercer != "" && !n.GlobalCo {
 		opts = append(opts, z.WithCoercer(customCoercer(n)))
 	}
 	return buildStringT(rec, n, z.String(opts...))
@@ -533,7 +533,7 @@ func buildNumber[T number](rec *Recorder, n *Node, s *z.NumberSchema[T], conv fu
 }
 
 func numOpts(n *Node) []z.SchemaOption {
-	if n.Coercer != "" {
+	if n.Coercer != "" && !n.GlobalCo {
 		return []z.SchemaOption{z.WithCoercer(customCoercer(n))}
 	}
 	return nil
@@ -571,7 +571,7 @@ func Build(rec *Recorder, n *Node, validate bool) z.ZogSchema {
 		return buildNumber(rec, n, z.Float64(numOpts(n)...), func(t *TestSpec) float64 { return t.F }, func(t *TestSpec) []float64 { return floatsTo[float64](t.Fs) }, func(l Leaf) float64 { return l.F })
 	case KBool:
 		var opts []z.SchemaOption
-		if n.Coercer != "" {
+		if n.Coercer != "" && !n.GlobalCo {
 			opts = append(opts, z.WithCoercer(customCoercer(n)))
 		}
 		s := z.Bool(opts...)
@@ -608,7 +608,7 @@ func Build(rec *Recorder, n *Node, validate bool) z.ZogSchema {
 		if n.Layout != "" {
 			opts = append(opts, z.Time.Format(n.Layout))
 		}
-		if n.Coercer != "" {
+		if n.Coercer != "" && !n.GlobalCo {
 			opts = append(opts, z.WithCoercer(customCoercer(n)))
 		}
 		s := z.Time(opts...)
